@@ -194,6 +194,20 @@ def obs_alias_template(rng):
     return stimtext.circuit_text(out)
 
 
+def zero_edge_template(rng):
+    """a hyper error whose only graphlike decomposition would use an edge that exists at probability 0 only (a zero-strength noise
+    instruction): with remnant-edge blocking that edge is not a known edge"""
+    zero = rng.choice(['X_ERROR(0) 0', 'DEPOLARIZE1(0) 0', 'PAULI_CHANNEL_1(0, 0, 0) 0', 'X_ERROR(0) 0 1', 'DEPOLARIZE2(0) 0 1'])
+    other = rng.choice(['X_ERROR(0.01) 1', 'X_ERROR(0) 1', '', 'X_ERROR(0.02) 1\nX_ERROR(0.03) 0' if rng.random() < 0.3 else 'X_ERROR(0.01) 1'])
+    oa, ob = rng.choice([(0, 3), (0, 1), (2, 5), (0, 0)])
+    lines = ['R 0 1', zero, other, 'E(%s) X0 X1' % rng.choice(['0.25', '0.125', '0.01']), 'M 0 1',
+             'DETECTOR rec[-2]', 'DETECTOR rec[-2]', 'DETECTOR rec[-1]', 'DETECTOR rec[-1]',
+             'OBSERVABLE_INCLUDE(%d) rec[-2]' % oa, 'OBSERVABLE_INCLUDE(%d) rec[-1]' % ob]
+    if rng.random() < 0.3:
+        lines = lines[:1] + ['REPEAT 2 {'] + ['    ' + l for l in lines[1:9] if l] + ['}'] + lines[9:]
+    return '\n'.join(l for l in lines if l)
+
+
 def gen_code_circuit(rng):
     code, task = rng.choice([('surface_code', 'rotated_memory_x'), ('surface_code', 'unrotated_memory_z'), ('repetition_code', 'memory'),
                              ('color_code', 'memory_xyz')])
@@ -254,6 +268,9 @@ def run(rep, tier):
         elif k < 0.12:
             text = obs_alias_template(rng) if rng.random() < 0.5 else obs_alias_circuit(rng)
             src = 'obs-alias'
+        elif k < 0.17:
+            text = zero_edge_template(rng)
+            src = 'zero-edge'
         elif k < 0.3:
             text = web_circuit(rng)
             src = 'web'
@@ -285,6 +302,8 @@ def run(rep, tier):
         fold = int(rng.random() < 0.5)
         ign = int(rng.random() < 0.4)
         block = int(rng.random() < 0.4)
+        if src == 'zero-edge' and rng.random() < 0.8:
+            block = 1
         if it < 0:
             fold, ign, block = cfold, cign, cblock
         elif block:
